@@ -339,7 +339,9 @@ Verdict HistEngine::exec_solvers(const Plan& plan, EventLog& log, Stats& st)
         // The regularisation subset does not resolve the defect: the quantity has no value, a fresh object refuses.
         // What a USED object does then is not judged (LocalNetwork::null_space relies on lindep() answering after such
         // a failure); memory safety still gates.  The converse - a used object refusing where a fresh one answers - is.
-        st.add("undefined_quantity_skipped"); n++; continue;
+        // Only for what null_space() asks: lindep and defect.  For everything else the refusal must be STICKY: a used
+        // object answering with a value where a fresh one refuses is "another value depending on what was asked before".
+        if (q.kind == "lin" || q.kind == "def" || !used.exc.empty()) { st.add("undefined_quantity_skipped"); n++; continue; }
       }
       if (!same_val(used, ref)) {
         std::string cls;
